@@ -123,7 +123,7 @@ impl core::fmt::Display for Tokenizer<'_, '_> {
                             write!(f, " !!! decoding error: {}", e)?;
                             return Ok(())
                         }
-                        None => continue
+                        None => return Ok(())
                     }
                     E::S(s) => f.write_str(s)?,
                     E::X(s) => match iter.peek() {
